@@ -299,6 +299,65 @@ func runC19(c *rt.Ctx) {
 	c.SetRule("RandomID drawn from G in {1,2,8,64} goroutines x GOMAXPROCS in {1,2,4,16} x R repetitions, each configuration in its own -race child process with a start barrier and seeded Gosched() calls between draws; every ID checked for version 4 / variant 1 (accessors and raw bits), per-bit frequencies over all draws, exact duplicate detection per run, race reports counted and attributed by stack; a positive-control child with a deliberately racy counter proves the detector is armed. " +
 		"distinct_nontrivial counts distinct IDs observed (exact set per run, summed); the interleavings actually observed are reported as hand-offs, maximum run length and the minimum number of distinct goroutines per 64-ticket window")
 	c.Assume("the race detector reports races on executed accesses without a happens-before edge; it does not enumerate schedules. RandomID is time-seeded inside the library, so violations are witnessed by race reports / offending IDs, not replayed")
+	if os.Getenv("VERIF_PLATFORM_PASS") != "" && os.Getenv("VERIF_C19_CHILD") == "" {
+		// platform pass (no race detector on this platform): the value monitors only, in process
+		c.SetRule("platform pass: 3,200,000 RandomID draws from 8 goroutines in this process; version/variant (accessors and raw bits), per-bit frequency, exact duplicate detection")
+		const per = 400000
+		all := make([][]uu.ID, 8)
+		var wg sync.WaitGroup
+		for g := range all {
+			wg.Add(1)
+			go func(g int) {
+				defer wg.Done()
+				l := make([]uu.ID, per)
+				for k := range l {
+					l[k] = uu.RandomID()
+				}
+				all[g] = l
+			}(g)
+		}
+		wg.Wait()
+		c.Serial("platform", func(w *rt.W) {
+			var ones [128]int64
+			seen := make(map[uu.ID]struct{}, 8*per)
+			var bad, dups int64
+			firstBad := ""
+			for _, l := range all {
+				for _, id := range l {
+					if id.Version() != 4 || id.Variant() != 1 || id.Higher>>12&0xf != 4 || id.Lower>>62 != 2 {
+						bad++
+						if firstBad == "" {
+							firstBad = id.String()
+						}
+					}
+					for b := 0; b < 64; b++ {
+						ones[b] += int64(id.Lower >> uint(b) & 1)
+						ones[64+b] += int64(id.Higher >> uint(b) & 1)
+					}
+					if _, d := seen[id]; d {
+						dups++
+					}
+					seen[id] = struct{}{}
+				}
+			}
+			w.Eval(8 * per)
+			w.NT(int64(len(seen)))
+			if bad > 0 {
+				w.Fail("not-version4-variant1", "draws", rt.Args("platform", os.Getenv("VERIF_PLATFORM_PASS")), fmt.Sprintf("%d of %d IDs with wrong version/variant, e.g. %s", bad, 8*per, firstBad), "version 4, variant 1 on every ID", "generated ID is not a version 4 / RFC 4122 variant UUID on this platform")
+			}
+			if dups > 0 {
+				w.Fail("duplicate-id", "draws", rt.Args("platform", os.Getenv("VERIF_PLATFORM_PASS")), fmt.Sprint(dups, " duplicates"), "none", "duplicate IDs")
+			}
+			for b := 0; b < 128; b++ {
+				fixed := b == 62 || b == 63 || (b >= 64+12 && b <= 64+15)
+				if !fixed && (ones[b] == 0 || ones[b] == 8*per) {
+					w.Fail("constant-random-bit", "draws", rt.Args("bit", b), "constant", "both values seen", "one of the 122 random bits never varies")
+				}
+			}
+			w.Sample("platform", map[string]any{"draws": 8 * per, "distinct": len(seen)})
+		})
+		return
+	}
 	if !raceEnabled && os.Getenv("VERIF_C19_CHILD") == "" {
 		c.Inconclusive("monitor binary was built without -race")
 		return
